@@ -20,9 +20,13 @@ def mk(n, kind=0):
     names = (["ip1", "mq", "ip1", "d", "mq", "e"] * 3)[:n]
     data = {"name": np.array(names, dtype=object), "a": np.arange(n, dtype=float) + 1, "b": (np.arange(n) * 3) % 5,
             "txt": np.array([f"t{i}" for i in range(n)], dtype=object)}
+    cols = ["name", "a", "b", "txt"]
     if kind == 1:
         data["sc"] = 42.5; data["title"] = "hello"
-    t = xdeps.Table(data, col_names=["name", "a", "b", "txt"], index="name")
+    if kind == 2:
+        data["pos"] = np.arange(2 * n, dtype=float).reshape(n, 2)       # one vector per row
+        cols = cols + ["pos"]
+    t = xdeps.Table(data, col_names=cols, index="name")
     return t
 def rect(t):
     bad = []
@@ -43,7 +47,7 @@ def rect(t):
     return bad
 def snapshot(t):
     return dict(n=len(t), cols=list(t._col_names), index=t._index,
-                cells={c: [repr(x) for x in t._data[c]] for c in t._col_names},
+                cells={c: [repr(np.asarray(x).tolist()) for x in t._data[c]] for c in t._col_names},
                 scalars={k: repr(t._data[k]) for k in t._data if k not in t._col_names})
 '''
 exec(SRC)
@@ -79,9 +83,11 @@ def main():
                 "table equal to its snapshot; non-trivial = result has rows", "rows<=4, chains<=2, 3 follow-ups")
     names = sorted(DERIV)
     chains = [(d,) for d in names] + [c for c in itertools.product(names, repeat=2)]
-    for n, kind in itertools.product(range(0, 5), (0, 1)):
+    for n, kind in itertools.product(range(0, 5), (0, 1, 2)):
         for chain in chains:
-            if len(chain) > 1 and (n in (0, 1) and kind == 1):
+            if len(chain) > 1 and ((n in (0, 1) and kind == 1) or kind == 2):
+                continue
+            if kind == 2 and ("transpose" in chain or n == 0):
                 continue
             if rac.out_of_time(0.8):
                 rac.sections["derive"]["exhaustive"] = False
